@@ -1,5 +1,6 @@
 import StepModel.Generated.GenBound
 import StepModel.Generated.RefOutGen
+import StepModel.Generated.OutOpenGen
 import StepModel.ExpressHash
 import StepModel.GenFiles
 import StepModel.AlphaOrder
@@ -147,5 +148,20 @@ def nameLt (a b : String) : Bool := decide (a < b)
 def sectionOrder (alphabetize : Bool) (α : Ambient) (base : Nat) (names : List String) : List String :=
   let walked := dictOrderUnder α base names
   if alphabetize then AlphaOrder.alphaOrder nameLt walked else walked
+
+/-! ## what an earlier run left in the working directory: how output files are opened -/
+open StepModel.Generated.OutOpen
+
+/-- the part of the ambient that is the working directory's content: file name ↦ bytes -/
+abbrev Dir := String → Option (List UInt8)
+
+/-- writing `bytes` to `name` under an opening discipline.  `truncate` / `unlinkThenCreate`: the file holds exactly the
+    bytes written.  `updateInPlace`: an existing file is overwritten from its start and keeps whatever lies beyond. -/
+def writeOut (mode : OpenMode) (dir : Dir) (name : String) (bytes : List UInt8) : Dir :=
+  fun n => if n = name then
+      some (match mode, dir name with
+            | .updateInPlace, some old => bytes ++ old.drop bytes.length
+            | _, _ => bytes)
+    else dir n
 
 end StepModel.GenDeterm
